@@ -153,6 +153,7 @@ type Listener struct {
 	ISNStep       uint32 `json:"isnStep,omitempty"`  // added per further connection (default 1<<20)
 	ServerSeq     uint32 `json:"serverSeq,omitempty"`
 	SynAckDelayUs int64  `json:"synAckDelayUs,omitempty"`
+	SynAckDupUs   int64  `json:"synAckDupUs,omitempty"` // > 0: the SYN-ACK is seen a second time this much later (retransmission)
 	TruncTS       bool   `json:"truncTS,omitempty"`
 }
 
@@ -165,7 +166,7 @@ type HTTPPlan struct {
 // DNSPlan scripts the resolver for one address.
 type DNSPlan struct {
 	Addr   string   `json:"addr"`
-	Script []string `json:"script"` // per call, in order (last repeats): names:<n>|empty|error[:notfound|:timeout|:temporary]|slow:<us>:<n>|stall
+	Script []string `json:"script"` // per call, in order (last repeats): names:<n>|dupnames:<n>|empty|error[:notfound|:timeout|:temporary]|slow:<us>:<n>|stall
 }
 
 // Knobs are per-run configuration choices of the simulated environment.
